@@ -237,7 +237,17 @@ class WSStream:
                 await self.app_put({"type": "websocket.connect"})
         elif isinstance(event, (Body, Data)) and not self.handshake.accepted:
             await self._send_error_response(400)
-            self.closed = True
+            if not self.closed:
+                self.closed = True
+                if self.app_put is not None:
+                    # The application has been sent websocket.connect, it
+                    # must be told the connection has gone.
+                    await self.app_put(
+                        {
+                            "type": "websocket.disconnect",
+                            "code": CloseReason.ABNORMAL_CLOSURE.value,
+                        }
+                    )
         elif isinstance(event, (Body, Data)):
             self.connection.receive_data(event.data)
             await self._handle_events()
